@@ -1,5 +1,6 @@
 //! One module per property; `check` dispatches.
 
+pub mod c01;
 pub mod c02;
 pub mod c08;
 pub mod c11;
@@ -8,15 +9,22 @@ pub mod c13;
 pub mod c15;
 pub mod c17;
 pub mod common;
+pub mod wsdlgen;
 
 use crate::report::Violation;
 
 pub fn setup() {
-    println!("zv setup: nothing to prepare yet");
+    crate::runner::install_quiet_panic_hook();
+    match crate::interpose::selftest() {
+        Ok(m) => println!("interposers ok: {m}"),
+        Err(e) => println!("WARNING: {e}"),
+    }
+    crate::batch::warm_up();
 }
 
 pub fn check(id: &str, tier: &str) -> i32 {
     match id {
+        "C01" => c01::check(tier),
         "C02" => c02::check(tier),
         "C08" => c08::check(tier),
         "C11" => c11::check(tier),
@@ -33,6 +41,7 @@ pub fn check(id: &str, tier: &str) -> i32 {
 
 pub fn replay(v: &Violation) -> i32 {
     match v.property.as_str() {
+        "C01" => c01::replay(v),
         "C02" | "C08" | "C09" | "C10" => c02::replay(v),
         "C11" => c11::replay(v),
         "C12" => c12::replay(v),
